@@ -1,3 +1,5 @@
+import re
+
 from registry import H
 
 SP = "crates/libs/sciparse/src/"
@@ -40,7 +42,9 @@ PROP = {
                 (SP + "proto/packet/view.rs", ["header", "header_mut", "payload", "payload_mut", "udp", "scmp", "as_raw", "as_raw_mut",
                                                "try_as_udp", "try_as_scmp", "try_classify", "has_required_size"]),
                 (SP + "proto/payload/udp/view.rs", ["payload", "payload_mut", "has_required_size"]),
-                (SP + "proto/payload/scmp/view.rs", ["message", "message_mut", "offending_packet", "data", "message_specific_data"]),
+                (SP + "proto/payload/scmp/view.rs", ["message", "message_mut", "offending_packet", "data", "message_specific_data",
+                                                     # the size-determining type byte of the unknown view must stay an unsafe setter
+                                                     re.compile(r"gen_unsafe_field_write!\(\s*set_message_type,\s*ScmpUnknownMessageLayout::TYPE_RNG,\s*u8\s*\)")]),
             ],
             "functions": ["ScionPacketView<Raw|Udp|Scmp>::*", "UdpDatagramView::*", "ScmpPayloadView::*", "Scmp*MessageView::*"],
             "harnesses": [
@@ -52,8 +56,6 @@ PROP = {
                 H("c02_udp_datagram_view", "P", what="UdpDatagramView constructor / accessors / mutators on every buffer <= 24 bytes (accessors touch only the 8-byte header or the tail)"),
                 H("c02_scmp_payload_ctor_message", "B", bound="buffer <= 40 bytes", what="ScmpPayloadView constructor, message() variants, quoted packet / data inside", timeout=1800),
                 H("c02_scmp_message_mut_preserves_inv", "B", bound="buffer <= 40 bytes", what="safe setters through message_mut() preserve Inv", timeout=1800),
-                H("c02_scmp_unknown_set_type_preserves_inv", "B", bound="buffer <= 40 bytes", what="safe ScmpUnknownMessageView::set_message_type preserves Inv of the payload view (F-scmp-unknown-settype)", timeout=1800,
-                  known_finding="F-scmp-unknown-settype"),
             ],
         },
         {
